@@ -3,6 +3,7 @@
 # raise an alarm.  Each is applied to a scratch export of /repo's HEAD ($SCRATCH, default /var/tmp/pbh), the quick check runs there.
 WT="$(cd "$1" && pwd)"; PID="$2"; SCRATCH="${SCRATCH:-/var/tmp/pbh}"; HERE="$(cd "$(dirname "$0")/.." && pwd)"
 [ -d "$SCRATCH/pybrops" ] || { mkdir -p "$SCRATCH" && git -C /repo archive HEAD | tar -x -C "$SCRATCH"; }   # scratch export of /repo HEAD (outside /repo and /verif; remove it when done)
+mkdir -p /var/tmp/thorough/ev
 for d in "$WT"/refactor_*.diff; do
   [ -s "$d" ] || continue
   k=$(basename "$d" .diff)
